@@ -13,6 +13,27 @@ Open Scope Z_scope.
 
 Local Opaque i2osp.
 
+(* never let the conversion test evaluate a closed scalar multiplication such as [n]G *)
+Local Strategy 1000 [ec_mul ec_mul_pos ec_add ec_double ec_neg point_ok on_curve modinv egcd sm2_mul sm2_base_mul].
+
+(* multiples of G with the same abscissa are equal or opposite (no hypothesis about [n]G in the context: a
+   [destruct] would try to match it against the closed term [n]G) *)
+Lemma same_x_multiples (Hp : P_prime) (Hfin : G_multiples_finite) k1 k2 :
+  1 <= k1 < sm2_n -> 1 <= k2 < sm2_n -> x_of (sm2_base_mul k1) = x_of (sm2_base_mul k2) ->
+  sm2_base_mul k2 = sm2_base_mul k1 \/ sm2_base_mul k2 = sm2_neg (sm2_base_mul k1).
+Proof.
+  intros H1 H2 E.
+  assert (Hv1 : sm2_valid (sm2_base_mul k1) = true) by (apply (mul_valid Hp); [apply G_valid|lia]).
+  assert (Hv2 : sm2_valid (sm2_base_mul k2) = true) by (apply (mul_valid Hp); [apply G_valid|lia]).
+  pose proof (Hfin k1 ltac:(lia)) as F1. pose proof (Hfin k2 ltac:(lia)) as F2.
+  change (sm2_mul k1 sm2_G) with (sm2_base_mul k1) in F1. change (sm2_mul k2 sm2_G) with (sm2_base_mul k2) in F2.
+  clear Hfin.
+  destruct (sm2_base_mul k1) as [[x1 y1]|]; [|contradiction].
+  destruct (sm2_base_mul k2) as [[x2 y2]|]; [|contradiction].
+  unfold x_of in E. cbn [encode_point fst] in E. subst x2.
+  exact (same_x_two_points Hp x1 y1 y2 Hv1 Hv2).
+Qed.
+
 Section NonceR.
   Variable Hp : P_prime.
   Variable Hassoc : Add_assoc.
@@ -26,24 +47,19 @@ Section NonceR.
   Proof.
     intros H1 H2 Hne Hsum E. pose proof n_pos as Hn.
     assert (Hv1 : sm2_valid (sm2_base_mul k1) = true) by (apply (mul_valid Hp); [apply G_valid|lia]).
-    assert (Hv2 : sm2_valid (sm2_base_mul k2) = true) by (apply (mul_valid Hp); [apply G_valid|lia]).
-    pose proof (Hfin k1 ltac:(lia)) as F1. pose proof (Hfin k2 ltac:(lia)) as F2.
-    change (sm2_base_mul k1) with (sm2_mul k1 sm2_G) in *. change (sm2_base_mul k2) with (sm2_mul k2 sm2_G) in *.
-    destruct (sm2_mul k1 sm2_G) as [[x1 y1]|] eqn:E1; [|contradiction].
-    destruct (sm2_mul k2 sm2_G) as [[x2 y2]|] eqn:E2; [|contradiction].
-    unfold x_of in E. cbn [encode_point fst] in E. subst x2.
-    destruct (same_x_two_points Hp x1 y1 y2 Hv1 Hv2) as [Eq|Eq].
-    - apply Hne. apply (base_mul_inj Hp Hassoc Hfin); [lia|lia|].
-      change (sm2_mul k1 sm2_G = sm2_mul k2 sm2_G). rewrite E1, E2. symmetry. exact Eq.
+    destruct (same_x_multiples Hp Hfin k1 k2 H1 H2 E) as [Eq|Eq].
+    - apply Hne. apply (base_mul_inj Hp Hassoc Hfin); [lia|lia|]. symmetry. exact Eq.
     - (* opposite points: [k1 + k2]G = O *)
       assert (Hsum0 : sm2_mul (k1 + k2) sm2_G = None).
-      { rewrite (mul_add Hp Hassoc) by (try apply G_valid; lia). rewrite E1, E2, Eq. apply (add_neg_r _ Hv1). }
+      { rewrite (mul_add Hp Hassoc) by (try apply G_valid; lia).
+        change (sm2_mul k1 sm2_G) with (sm2_base_mul k1). change (sm2_mul k2 sm2_G) with (sm2_base_mul k2).
+        rewrite Eq. apply (add_neg_r _ Hv1). }
       destruct (Z.lt_ge_cases (k1 + k2) sm2_n) as [Hlt|Hge].
       + exact (Hfin (k1 + k2) ltac:(lia) Hsum0).
       + apply (Hfin (k1 + k2 - sm2_n) ltac:(lia)).
         rewrite <- (mul_mod_n Hp Hassoc HnG (k1 + k2)) in Hsum0 by lia.
         replace ((k1 + k2) mod sm2_n) with (k1 + k2 - sm2_n) in Hsum0; [exact Hsum0|].
-        symmetry. apply Z.mod_unique with (q := 1); lia.
+        apply Z.mod_unique with (q := 1); lia.
   Qed.
 
   (* two signatures of the same digest that share r: the nonces are equal, or opposite (k1 + k2 = n), or the two
@@ -59,7 +75,9 @@ Section NonceR.
     pose proof (distinct_nonce_distinct_x k1 k2 H1 H2 Hne Hsum) as Hx.
     assert (Hr : forall k, 1 <= k < sm2_n -> 0 <= x_of (sm2_base_mul k) < sm2_p).
     { intros k Hk. pose proof (mul_coords k sm2_G G_coords) as Hc. change (sm2_mul k sm2_G) with (sm2_base_mul k) in Hc.
-      destruct (sm2_base_mul k) as [[x y]|]; cbn in *; [tauto|]. pose proof p_pos. lia. }
+      pose proof p_lt_2_256. pose proof p_pos.
+      unfold coords_ok in Hc. unfold x_of. clear - Hc H0.
+      destruct (sm2_base_mul k) as [[x y]|]; cbn [encode_point fst]; [tauto|lia]. }
     pose proof (Hr k1 H1) as R1. pose proof (Hr k2 H2) as R2.
     set (x1 := x_of (sm2_base_mul k1)) in *. set (x2 := x_of (sm2_base_mul k2)) in *.
     assert (Hpn : sm2_p < 2 * sm2_n) by reflexivity.
@@ -89,6 +107,14 @@ Qed.
 Lemma Sm2Verify_default_uid pub msg r s : Sm2Verify pub msg default_uid r s = Sm2Verify pub msg [] r s.
 Proof. reflexivity. Qed.
 
+Lemma Sign_ok_inv fuel pr rho msg sig rho' :
+  Sign fuel pr rho msg = Ok (sig, rho') ->
+  exists r s, Sm2Sign fuel pr msg [] rho = Ok (r, s, rho') /\ sig = sig_encode r s.
+Proof.
+  unfold Sign. destruct (Sm2Sign fuel pr msg [] rho) as [[[r s] rest]| | |]; try discriminate.
+  cbn [obind]. intros [= <- <-]. exists r, s. auto.
+Qed.
+
 Lemma Sign_then_PublicKey_Verify
       (Hp : P_prime) (Hassoc : Add_assoc) (HnG : G_order_divides_n) (Hfin : G_multiples_finite) (HNp : N_prime)
       fuel d rho msg sig rho' :
@@ -96,10 +122,8 @@ Lemma Sign_then_PublicKey_Verify
   Sign fuel (key_of d) rho msg = Ok (sig, rho') ->
   PublicKey_Verify (ScalarBaseMult d) msg sig = true.
 Proof.
-  intros Hd H. unfold Sign in H.
-  destruct (Sm2Sign fuel (key_of d) msg [] rho) as [[[r s] rest]| | |] eqn:E; try discriminate.
-  cbn [obind] in H. injection H as <- _.
-  pose proof (Sm2Sign_then_Sm2Verify Hp Hassoc HnG Hfin HNp fuel d msg [] rho r s rest Hd E) as Hv.
+  intros Hd H. apply Sign_ok_inv in H as (r & s & E & ->).
+  pose proof (Sm2Sign_then_Sm2Verify Hp Hassoc HnG Hfin HNp fuel d msg [] rho r s rho' Hd E) as Hv.
   assert (Hrs : 1 <= r < sm2_n /\ 1 <= s < sm2_n).
   { apply Sm2Verify_iff in Hv as (za & _ & Hr & Hs & _). auto. }
   pose proof n_lt_2_256 as Hn.
